@@ -81,6 +81,7 @@ class BranchContext:
         
     def enter(self, nwcond):
         #if not isinstance(nwcond,LinComb): nwcond = LinComb.ZERO+nwcond
+        if isinstance(nwcond,LinComb): nwcond = LinCombBool(nwcond)
         self.bak = self.ctx.backup()        
         self.cond = nwcond
         self.origguard = add_guard(nwcond)
